@@ -149,6 +149,82 @@ static u64 bits_d(double f) { union { u64 u; double f; } c; c.f = f; return c.u;
   VF_ASSERT(r == q && (ZERO_##S(r) || bits_##S(r) == bits_##S(q)), "C16: midpoint(" #T ") is symmetric: midpoint(a,b) == midpoint(b,a)"); \
   VF_REACH(); }
 
+/* ---- exact fmod / remainder on the bit pattern (specification side; no floating-point operation is used).
+ * |x| = mx * 2^ex, |y| = my * 2^ey with mantissas normalised to 2^(P-1) <= m < 2^P (P = 24 / 53); the quotient is developed
+ * bit by bit (restoring division, at most 277 / 2098 steps); the remainder r * 2^ey is exactly representable.
+ * rem == 0: fmod (truncated quotient, sign of x); rem == 1: IEEE remainder (quotient rounded to nearest, ties to even). */
+#define S_FMOD_DEF(T, S, U, P, EBITS, BIAS, QNAN)                                                                                 \
+  static T s_build_##S(U sign, U m, int e) { /* value m * 2^e, exactly representable, m < 2^(P+1) */                              \
+    if (m == 0) return mk_##S(sign);                                                                                              \
+    for (int i = 0; i < P; ++i) { if (m >> (P - 1)) break; m <<= 1; --e; }                                                        \
+    if (m >> P) { m >>= 1; ++e; }                                                                                                 \
+    int E = e + (BIAS + P - 1);                                                                                                   \
+    if (E >= 1) return mk_##S(sign | ((U)E << (P - 1)) | (m & (((U)1 << (P - 1)) - 1)));                                          \
+    return mk_##S(sign | (m >> (1 - E))); }                                                                                       \
+  static T s_fmodrem_##S(T x, T y, int rem) {                                                                                     \
+    U bx = bits_##S(x), by = bits_##S(y); U sign = bx & ((U)1 << (P + EBITS - 1));                                                \
+    if (NAN_##S(x) || NAN_##S(y) || INF_##S(x) || ZERO_##S(y)) return mk_##S(QNAN);                                               \
+    if (INF_##S(y) || ZERO_##S(x)) return x;                                                                                      \
+    U fm = ((U)1 << (P - 1)) - 1;                                                                                                 \
+    int ex = (int)((bx >> (P - 1)) & (((U)1 << EBITS) - 1)), ey = (int)((by >> (P - 1)) & (((U)1 << EBITS) - 1));                 \
+    U mx = bx & fm, my = by & fm;                                                                                                 \
+    if (ex) mx |= (U)1 << (P - 1); else ex = 1;                                                                                   \
+    if (ey) my |= (U)1 << (P - 1); else ey = 1;                                                                                   \
+    for (int i = 0; i < P; ++i) { if (mx >> (P - 1)) break; mx <<= 1; --ex; }                                                     \
+    for (int i = 0; i < P; ++i) { if (my >> (P - 1)) break; my <<= 1; --ey; }                                                     \
+    int n = ex - ey; int ue = ey - (BIAS + P - 1); /* unit exponent of r */                                                       \
+    U r = mx; unsigned q = 0;                                                                                                     \
+    if (n < -1 || (n == -1 && !rem)) return x;                                                                                    \
+    if (n == -1) { /* |y|/2 <= |x| < |y|, units 2^(ue-1): |y| = 2 my */                                                           \
+      if (r > my) return s_build_##S(sign ^ ((U)1 << (P + EBITS - 1)), 2 * my - r, ue - 1);                                       \
+      return x; }                                                                                                                 \
+    for (int i = 0; i <= n; ++i) { q <<= 1; if (r >= my) { r -= my; q |= 1u; } if (i < n) r <<= 1; }                              \
+    if (rem && (2 * r > my || (2 * r == my && (q & 1u)))) return s_build_##S(sign ^ ((U)1 << (P + EBITS - 1)), my - r, ue);       \
+    return s_build_##S(sign, r, ue); }
+S_FMOD_DEF(float, f, u32, 24, 8, 127, 0x7fc00000u)
+S_FMOD_DEF(double, d, u64, 53, 11, 1023, 0x7ff8000000000000ull)
+
+/* ---- fmod, remainder (single source path: gcem::fmod for BOTH) */
+#define FMOD_DOM_f (FIN_f(x) && FIN_f(y) && !ZERO_f(y))
+#define FMOD_DOM_d (FIN_d(x) && FIN_d(y) && !ZERO_d(y))
+/* magnitude of the correctly rounded quotient fl(x/y), stated without a division (a second divider next to the one in the
+ * code under test makes the query intractable).  W is a wider type in which scaling by a power of two is exact.  For P-bit
+ * operands no real quotient lies within 2^-(P+1) relative below a power of two, so fl(x/y) >= 2^k <=> |x| >= 2^k |y| exactly;
+ * fl(x/y) == 0 <=> |x| <= 2^-(emin) |y| (tie to even). */
+#define QGE(S, W, k) ((W)ABS_##S(x) >= (W)(k) * (W)ABS_##S(y))
+#define QTINY_f (!QGE(f, double, 0x1p-23) && (double)ABS_f(x) > 0x1p-150 * (double)ABS_f(y))
+#define QTINY_d (!QGE(d, long double, 0x1p-52L) && (long double)ABS_d(x) > 0x1p-1075L * (long double)ABS_d(y))
+#define B_FMOD(T, S, KNOWN) { IN_##S(x); IN_##S(y); CE(); KNOWN; \
+  T r = fmod_##S(x, y); T e = s_fmodrem_##S(x, y, 0); \
+  VF_ASSERT(SAME_##S(r, e), "C16: fmod(" #T ") is the exact remainder x - n*y, n = trunc(x/y) (C 7.12.10.1): sign of x, |r| < |y|, fmod(x, inf) == x, fmod(+-0, y) == +-0, NaN for x inf or y zero"); \
+  VF_REACH(); }
+/* no reduction takes place (fmod: |x| < |y|; remainder: 2|x| <= |y|, a tie goes to the even quotient 0): the result is x itself */
+#define B_FMOD_SMALL(fn, T, S, KNOWN) { IN_##S(x); IN_##S(y); CE(); KNOWN; \
+  T r = fn##_##S(x, y); \
+  VF_ASSERT(bits_##S(r) == bits_##S(x), "C16: " #fn "(" #T ")(x, y) == x bit for bit when no multiple of y has to be subtracted"); \
+  VF_REACH(); }
+/* an argument is NaN or infinite, the divisor is zero, or the dividend is zero: NaN, except fn(finite x, +-inf) == x and
+ * fn(+-0, y) == +-0 for y != 0 (C F.10.7.1, F.10.7.2) */
+#define B_FMOD_SPECIAL(fn, T, S, KNOWN) { IN_##S(x); IN_##S(y); CE(); __CPROVER_assume(!FMOD_DOM_##S || ZERO_##S(x)); KNOWN; \
+  T r = fn##_##S(x, y); \
+  VF_ASSERT(NAN_##S(x) || NAN_##S(y) || INF_##S(x) || ZERO_##S(y) ? NAN_##S(r) : bits_##S(r) == bits_##S(x), "C16: " #fn "(" #T "): NaN if an argument is NaN, x is infinite or y is zero; " #fn "(finite x, +-inf) == x and " #fn "(+-0, y) == +-0 bit for bit"); \
+  VF_REACH(); }
+#define B_REMAINDER(T, S, KNOWN) { IN_##S(x); IN_##S(y); CE(); KNOWN; \
+  T r = remainder_##S(x, y); T e = s_fmodrem_##S(x, y, 1); \
+  VF_ASSERT(SAME_##S(r, e), "C16: remainder(" #T ") is the exact IEEE remainder x - n*y, n = x/y rounded to nearest, ties to even (C 7.12.10.2): |r| <= |y|/2, remainder(x, inf) == x, zero result has the sign of x"); \
+  VF_REACH(); }
+
+/* No reduction.  One symbolic float divider next to the exponent arithmetic of denormal operands is out of reach for the SAT
+ * solver in one query; the case split is on the position of the leading one of x: cell 0: x normal, or x and y both denormal;
+ * cell 1+k (k = 0..22): x denormal with leading one at bit k, y normal.  The cells cover the domain (x != 0). */
+#define SMALL_CELL_f (x_bits << 1 >= 0x01000000u || y_bits << 1 < 0x01000000u ? VF_CELL == 0 : (x_bits & 0x7fffffffu) >> (VF_CELL >= 1 ? VF_CELL - 1 : 0) == 1 && VF_CELL >= 1)
+/* A multiple of y has to be subtracted: bounded stand-in (normal operands, quotient below 8; the bit-level reference then needs
+ * at most 4 division steps).  Only the quotient-1 band is right in general (x - y is exact, Sterbenz). */
+#define REDUCE_WIN_f (x_bits << 1 >= 0x01000000u && y_bits << 1 >= 0x01000000u && FMOD_DOM_f && (double)ABS_f(x) < 8 * (double)ABS_f(y))
+/* fma case split: alignment distance between the addend and the product (biased exponent fields), a total function into 0..5 */
+#define EXPF_f(b) ((int)(((b) >> 23) & 0xffu))
+#define FMA_D_f (EXPF_f(z_bits) - (EXPF_f(x_bits) + EXPF_f(y_bits) - 127))
+#define FMA_CELL_f (FMA_D_f < -26 ? 0 : FMA_D_f < -2 ? 1 : FMA_D_f < 0 ? 2 : FMA_D_f < 3 ? 3 : FMA_D_f < 27 ? 4 : 5)
 #define CE() VF_INPUT_BOOL(ce); vf_ce = ce
 
 /*@GROUP name=floor_f props=C16,C13,C02 kind=F@*/
@@ -202,5 +278,81 @@ void h_midpoint_f(void) B_MIDPOINT(float, f, (void)0)
 /*@GROUP name=midpoint_sym_f props=C16,C02 kind=F@*/
 void h_midpoint_sym_f(void) B_MIDPOINT_SYM(float, f, (void)0)
 
-/*@GROUP name=fma_f props=C16,C13,C02 kind=F timeout=600 tier=thorough solver=kissat@*/
-void h_fma_f(void) B_FMA(float, f, VF_KNOWN(C16_fma_constexpr_not_fused, FIN_f(x) && FIN_f(y) && VF_FMA_f(x, y, -(x * y)) != 0))
+/*@GROUP name=fmod_f props=C16,C02 kind=F@*/
+void h_fmod_f(void) B_FMOD_SPECIAL(fmod, float, f, VF_KNOWN(C16_fmod_inf_divisor, INF_f(y) && FIN_f(x)); VF_KNOWN(C16_fmod_neg_zero, FMOD_DOM_f && x_bits == 0x80000000u))
+
+/*@GROUP name=remainder_f props=C16,C02 kind=F@*/
+void h_remainder_f(void) B_FMOD_SPECIAL(remainder, float, f, VF_KNOWN(C16_fmod_inf_divisor, INF_f(y) && FIN_f(x)); VF_KNOWN(C16_fmod_neg_zero, FMOD_DOM_f && x_bits == 0x80000000u))
+
+/*@GROUP name=fmod_small_f props=C16,C02 kind=S split=VF_CELL:0:23 qsplit=0,1,12 solver=kissat timeout=600@*/
+void h_fmod_small_f(void) B_FMOD_SMALL(fmod, float, f, __CPROVER_assume(FMOD_DOM_f && !ZERO_f(x) && ABS_f(x) < ABS_f(y) && SMALL_CELL_f); VF_KNOWN(C16_gcem_tiny_as_integral, QTINY_f))
+
+/*@GROUP name=remainder_small_f props=C16,C02 kind=S split=VF_CELL:0:23 qsplit=0,1,12 solver=kissat timeout=600@*/
+void h_remainder_small_f(void) B_FMOD_SMALL(remainder, float, f, __CPROVER_assume(FMOD_DOM_f && !ZERO_f(x) && 2 * ABS_f(x) <= ABS_f(y) && SMALL_CELL_f); VF_KNOWN(C16_gcem_tiny_as_integral, QTINY_f))
+
+/*@GROUP name=fmod_reduce_f props=C16,C02 kind=B bound=normal-operands,|y|<=|x|<8|y| unwind=26 solver=kissat timeout=300@*/
+void h_fmod_reduce_f(void) B_FMOD(float, f, __CPROVER_assume(REDUCE_WIN_f && ABS_f(x) >= ABS_f(y)); VF_KNOWN(C16_fmod_gcem_formula, (double)ABS_f(x) >= 2 * (double)ABS_f(y)); VF_KNOWN(C16_fmod_neg_zero, ABS_f(x) == ABS_f(y) && SIGN_f(x)))
+
+/*@GROUP name=remainder_reduce_f props=C16,C02 kind=B bound=normal-operands,|y|/2<|x|<8|y| unwind=26 solver=kissat timeout=300@*/
+void h_remainder_reduce_f(void) B_REMAINDER(float, f, __CPROVER_assume(REDUCE_WIN_f && 2 * (double)ABS_f(x) > (double)ABS_f(y)); VF_KNOWN(C16_remainder_is_fmod, ABS_f(x) < ABS_f(y) || 2 * (double)ABS_f(x) >= 3 * (double)ABS_f(y)); VF_KNOWN(C16_fmod_neg_zero, ABS_f(x) == ABS_f(y) && SIGN_f(x)))
+
+/*@GROUP name=fma_f props=C16,C13,C02 kind=S split=VF_CELL:0:5 timeout=600 tier=thorough solver=kissat@*/
+void h_fma_f(void) B_FMA(float, f, __CPROVER_assume(FMA_CELL_f == VF_CELL); VF_KNOWN(C16_fma_constexpr_not_fused, FIN_f(x) && FIN_f(y) && (double)(x * y) != (double)x * (double)y))
+
+/* ---------------- double: all 2^64 bit patterns symbolic (tier=thorough, time-boxed) */
+/*@GROUP name=floor_d props=C16,C13,C02 kind=F tier=thorough timeout=600@*/
+void h_floor_d(void) B_RND(floor, double, d, , VF_KNOWN(C16_gcem_llong_cast, FIN_d(x) && ABS_d(x) >= P63_d); VF_KNOWN(C16_gcem_tiny_as_integral, !ZERO_d(x) && ABS_d(x) < EPS_d))
+
+/*@GROUP name=ceil_d props=C16,C02 kind=F tier=thorough timeout=600@*/
+void h_ceil_d(void) B_RND(ceil, double, d, , VF_KNOWN(C16_gcem_llong_cast, FIN_d(x) && ABS_d(x) >= P63_d); VF_KNOWN(C16_gcem_tiny_as_integral, !ZERO_d(x) && ABS_d(x) < EPS_d); VF_KNOWN(C16_gcem_neg_zero_lost, x > -1 && x <= -EPS_d))
+
+/*@GROUP name=trunc_d props=C16,C13,C02 kind=F tier=thorough timeout=600@*/
+void h_trunc_d(void) B_RND(trunc, double, d, , VF_KNOWN(C16_gcem_llong_cast, FIN_d(x) && ABS_d(x) >= P63_d); VF_KNOWN(C16_gcem_tiny_as_integral, !ZERO_d(x) && ABS_d(x) < EPS_d); VF_KNOWN(C16_gcem_neg_zero_lost, x > -1 && x <= -EPS_d))
+
+/*@GROUP name=round_d props=C16,C13,C02 kind=F tier=thorough timeout=600@*/
+void h_round_d(void) B_RND(round, double, d, , VF_KNOWN(C16_gcem_llong_cast, FIN_d(x) && ABS_d(x) >= P63_d); VF_KNOWN(C16_gcem_tiny_as_integral, !ZERO_d(x) && ABS_d(x) < EPS_d))
+
+/*@GROUP name=rint_d props=C16,C13,C02 kind=F tier=thorough timeout=600@*/
+void h_rint_d(void) B_RND(rint, double, d, , VF_KNOWN(C16_rint_fallback_overflow, !FIN_d(x) || ABS_d(x) >= P63_d); VF_KNOWN(C16_rint_fallback_truncates, FIN_d(x) && ABS_d(x) < P63_d && rint(x) != trunc(x)); VF_KNOWN(C16_rint_fallback_neg_zero, SIGN_d(x) && x > -1))
+
+/*@GROUP name=lrint_d props=C16,C13,C02 kind=F tier=thorough timeout=600@*/
+void h_lrint_d(void) B_LRINT(lrint, long, double, d, , VF_KNOWN(C16_lrint_fallback_truncates, rint(x) != trunc(x)))
+
+/*@GROUP name=llrint_d props=C16,C13,C02 kind=F tier=thorough timeout=600@*/
+void h_llrint_d(void) B_LRINT(llrint, long long, double, d, , VF_KNOWN(C16_lrint_fallback_truncates, rint(x) != trunc(x)))
+
+/*@GROUP name=copysign_d props=C16,C13,C02 kind=F tier=thorough timeout=600@*/
+void h_copysign_d(void) B_COPYSIGN(double, d, , VF_KNOWN(C16_copysign_fallback_zero_nan, !NAN_d(x) && SIGN_d(x) != SIGN_d(y) && (ZERO_d(x) || ZERO_d(y) || NAN_d(y))))
+
+/*@GROUP name=signbit_d props=C16,C13,C02 kind=F tier=thorough timeout=600@*/
+void h_signbit_d(void) B_SIGNBIT(double, d, VF_KNOWN(C16_signbit_fallback_pos_zero, x_bits == 0); VF_KNOWN(C16_signbit_fallback_neg_nan, NAN_d(x) && SIGN_d(x)))
+
+/*@GROUP name=fabs_d props=C16,C02 kind=F tier=thorough timeout=600@*/
+void h_fabs_d(void) B_FABS(double, d, , VF_KNOWN(C16_fabs_neg_zero, x_bits == 0x8000000000000000ull))
+
+/*@GROUP name=minmax_d props=C16,C02 kind=F tier=thorough timeout=600@*/
+void h_minmax_d(void) B_MINMAX(double, d, , VF_KNOWN(C16_fmin_fmax_nan_second, NAN_d(y) && !NAN_d(x)))
+
+/*@GROUP name=fdim_d props=C16,C02 kind=F tier=thorough timeout=600 solver=kissat@*/
+void h_fdim_d(void) B_FDIM(double, d, , VF_KNOWN(C16_fdim_nan, NAN_d(x) || NAN_d(y)))
+
+/*@GROUP name=classify_d props=C16,C02 kind=F tier=thorough timeout=600@*/
+void h_classify_d(void) B_CLASSIFY(double, d, (void)0)
+
+/*@GROUP name=lerp_d props=C16,C02 kind=F tier=thorough timeout=600@*/
+void h_lerp_d(void) B_LERP(double, d, (void)0)
+
+/*@GROUP name=hypot_d props=C16,C02 kind=F tier=thorough timeout=600@*/
+void h_hypot_d(void) B_HYPOT(double, d, (void)0)
+
+/*@GROUP name=midpoint_d props=C16,C02 kind=F tier=thorough timeout=600@*/
+void h_midpoint_d(void) B_MIDPOINT(double, d, (void)0)
+
+/*@GROUP name=midpoint_sym_d props=C16,C02 kind=F tier=thorough timeout=600 solver=kissat@*/
+void h_midpoint_sym_d(void) B_MIDPOINT_SYM(double, d, (void)0)
+
+/*@GROUP name=fmod_d props=C16,C02 kind=F tier=thorough timeout=600@*/
+void h_fmod_d(void) B_FMOD_SPECIAL(fmod, double, d, VF_KNOWN(C16_fmod_inf_divisor, INF_d(y) && FIN_d(x)); VF_KNOWN(C16_fmod_neg_zero, FMOD_DOM_d && x_bits == 0x8000000000000000ull))
+
+/*@GROUP name=remainder_d props=C16,C02 kind=F tier=thorough timeout=600@*/
+void h_remainder_d(void) B_FMOD_SPECIAL(remainder, double, d, VF_KNOWN(C16_fmod_inf_divisor, INF_d(y) && FIN_d(x)); VF_KNOWN(C16_fmod_neg_zero, FMOD_DOM_d && x_bits == 0x8000000000000000ull))
